@@ -7,6 +7,10 @@ From TS Require Import Spec.SerdeCase Spec.C16Spec Spec.Serde Spec.C03Spec Spec.
 From TS Require Import Model.Reconcile.
 From Coq Require Import Permutation.
 From TS Require Proofs.C01 Proofs.C01Front Proofs.C01Layout Proofs.C01File.
+From TS Require Import Model.MultiFile.
+From TS Require Model.Writer.
+From TS Require Proofs.C12Multi Proofs.C12MultiTS Proofs.C12MultiSwift Proofs.C12MultiGo Proofs.C12MultiStateless
+                Proofs.MultiSameDecls Proofs.MultiSameProps Proofs.MultiSameWitness Proofs.C12MultiWitness.
 Import ListNotations.
 Local Open Scope N_scope.
 
@@ -237,3 +241,283 @@ Theorem C01_file_python :
                   Proofs.C01.groups_fit Python (flat_map ir_groups items) (obs_groups (fd_decls fd)).
 Proof. exact Proofs.C01File.py_file_fits. Qed.
 Print Assumptions C01_file_python.
+
+(* =============================================================================================
+   FOLDER (multi-file, `-d`) MODE.  The language value lives as long as the run: the printer state (TypeScript's
+   map of translated types, Swift's CodableVoid flag, Go's import set, Python's imports / type variables /
+   translated types) is threaded from one crate's file to the next (generate_crates of Model/MultiFile.v).
+   Proofs.C12Multi*.<l>_multi_decls uc cfg st pd are the declarations of ONE crate's file from ANY incoming
+   state st; Props/C12.v C12_multi_<l>_layout ties them to the text <l>_generate_multi writes.
+
+   C01_multi_decls_state_independent_<l>: from any two states the item writers return the same declarations -
+   or the same error, or the same panic site (Proofs.MultiSameDecls.same_outcome, spelled out in
+   C01_multi_same_outcome_meaning).  Nothing an item declares is decided by reading the state: its only reads are
+   the read-modify-write steps registering an import, a type variable, a translated type, the flag.  What DOES
+   depend on the incoming state is what is written about the state itself, none of it an item declaration:
+   Python's import block / TypeVar lines / translation functions, Go's import block, TypeScript's ReviverFunc /
+   ReplacerFunc trailer, Swift's Codable.swift.  No dependency of a declaration on the state was found in any
+   of the four stateful back ends; Kotlin and Scala keep no state (their folder-mode generators are stated over
+   kt_decls / sc_decls, Props/C12.v C12_multi_kotlin_layout / _scala_layout). *)
+Theorem C01_multi_same_outcome_meaning :
+  forall (A St : Type) (o1 o2 : outcome (A * St)),
+    Proofs.MultiSameDecls.same_outcome o1 o2 <->
+    (forall a s1, o1 = Ok (a, s1) -> exists s2, o2 = Ok (a, s2)) /\
+    (forall e, o1 = Err e -> o2 = Err e) /\
+    (forall p, o1 = Panic p -> o2 = Panic p).
+Proof. exact Proofs.MultiSameDecls.same_outcome_meaning. Qed.
+Print Assumptions C01_multi_same_outcome_meaning.
+
+Theorem C01_multi_decls_state_independent_typescript :
+  forall uc cfg st1 st2 pd,
+    Proofs.MultiSameDecls.same_outcome (Proofs.C12MultiTS.ts_multi_decls uc cfg st1 pd) (Proofs.C12MultiTS.ts_multi_decls uc cfg st2 pd).
+Proof. exact Proofs.MultiSameDecls.ts_multi_decls_state_independent. Qed.
+Print Assumptions C01_multi_decls_state_independent_typescript.
+
+Theorem C01_multi_decls_state_independent_swift :
+  forall uc cfg st1 st2 pd,
+    Proofs.MultiSameDecls.same_outcome (Proofs.C12MultiSwift.sw_multi_decls uc cfg st1 pd) (Proofs.C12MultiSwift.sw_multi_decls uc cfg st2 pd).
+Proof. exact Proofs.MultiSameDecls.sw_multi_decls_state_independent. Qed.
+Print Assumptions C01_multi_decls_state_independent_swift.
+
+Theorem C01_multi_decls_state_independent_go :
+  forall uc cfg st1 st2 pd,
+    Proofs.MultiSameDecls.same_outcome (Proofs.C12MultiGo.go_multi_decls uc cfg st1 pd) (Proofs.C12MultiGo.go_multi_decls uc cfg st2 pd).
+Proof. exact Proofs.MultiSameDecls.go_multi_decls_state_independent. Qed.
+Print Assumptions C01_multi_decls_state_independent_go.
+
+Theorem C01_multi_decls_state_independent_python :
+  forall uc cfg st1 st2 pd,
+    Proofs.MultiSameDecls.same_outcome (Proofs.C12Multi.py_multi_decls uc cfg st1 pd) (Proofs.C12Multi.py_multi_decls uc cfg st2 pd).
+Proof. exact Proofs.MultiSameDecls.py_multi_decls_state_independent. Qed.
+Print Assumptions C01_multi_decls_state_independent_python.
+
+(* ... in particular the declarations of single-file mode, in both directions (single-file mode succeeds on a crate
+   exactly when folder mode does from every state, with the same declarations; the failures agree) *)
+Theorem C01_multi_same_decls_typescript :
+  forall uc cfg st pd,
+    Proofs.MultiSameDecls.same_outcome (Proofs.C12MultiTS.ts_multi_decls uc cfg st pd) (ts_decls uc cfg pd) /\
+    Proofs.MultiSameDecls.same_outcome (ts_decls uc cfg pd) (Proofs.C12MultiTS.ts_multi_decls uc cfg st pd).
+Proof. exact Proofs.MultiSameDecls.ts_multi_single_both. Qed.
+Print Assumptions C01_multi_same_decls_typescript.
+
+Theorem C01_multi_same_decls_swift :
+  forall uc cfg st pd,
+    Proofs.MultiSameDecls.same_outcome (Proofs.C12MultiSwift.sw_multi_decls uc cfg st pd) (sw_decls uc cfg pd) /\
+    Proofs.MultiSameDecls.same_outcome (sw_decls uc cfg pd) (Proofs.C12MultiSwift.sw_multi_decls uc cfg st pd).
+Proof. exact Proofs.MultiSameDecls.sw_multi_single_both. Qed.
+Print Assumptions C01_multi_same_decls_swift.
+
+Theorem C01_multi_same_decls_go :
+  forall uc cfg st pd,
+    Proofs.MultiSameDecls.same_outcome (Proofs.C12MultiGo.go_multi_decls uc cfg st pd) (go_decls uc cfg pd) /\
+    Proofs.MultiSameDecls.same_outcome (go_decls uc cfg pd) (Proofs.C12MultiGo.go_multi_decls uc cfg st pd).
+Proof. exact Proofs.MultiSameDecls.go_multi_single_both. Qed.
+Print Assumptions C01_multi_same_decls_go.
+
+Theorem C01_multi_same_decls_python :
+  forall uc cfg st pd,
+    Proofs.MultiSameDecls.same_outcome (Proofs.C12Multi.py_multi_decls uc cfg st pd) (py_decls uc cfg pd) /\
+    Proofs.MultiSameDecls.same_outcome (py_decls uc cfg pd) (Proofs.C12Multi.py_multi_decls uc cfg st pd).
+Proof. exact Proofs.MultiSameDecls.py_multi_single_both. Qed.
+Print Assumptions C01_multi_same_decls_python.
+
+(* ... and the language-independent observation <l>_file_decls every single-file theorem of C01 .. C09 speaks about:
+   its declaration list is the observation of the folder-mode declarations - next to (Swift) the CodableVoid helper
+   single-file mode appends when () was translated, which folder mode writes to Codable.swift, and (Python) the
+   helper entries for the header's TypeVar lines and translation functions, which folder mode writes from the
+   state REACHED (Props/C12.v) *)
+Theorem C01_multi_file_decls_typescript :
+  forall uc cfg st pd ds st', Proofs.C12MultiTS.ts_multi_decls uc cfg st pd = Ok (ds, st') ->
+    exists fd, ts_file_decls uc cfg pd = Ok fd /\ fd_decls fd = map ts_obs ds.
+Proof. exact Proofs.MultiSameDecls.ts_multi_file_decls. Qed.
+Print Assumptions C01_multi_file_decls_typescript.
+
+Theorem C01_multi_file_decls_swift :
+  forall uc cfg st pd ds st', Proofs.C12MultiSwift.sw_multi_decls uc cfg st pd = Ok (ds, st') ->
+    exists fd st0, sw_file_decls uc cfg pd = Ok fd /\ sw_decls uc cfg pd = Ok (ds, st0) /\
+                   fd_decls fd = flat_map sw_obs ds ++ flat_map sw_obs (sw_trailing_decls cfg st0).
+Proof. exact Proofs.MultiSameDecls.sw_multi_file_decls. Qed.
+Print Assumptions C01_multi_file_decls_swift.
+
+Theorem C01_multi_file_decls_go :
+  forall uc cfg st pd ds st', Proofs.C12MultiGo.go_multi_decls uc cfg st pd = Ok (ds, st') ->
+    exists fd, go_file_decls uc cfg pd = Ok fd /\ fd_decls fd = flat_map go_obs ds.
+Proof. exact Proofs.MultiSameDecls.go_multi_file_decls. Qed.
+Print Assumptions C01_multi_file_decls_go.
+
+Theorem C01_multi_file_decls_python :
+  forall uc cfg st pd ds st', Proofs.C12Multi.py_multi_decls uc cfg st pd = Ok (ds, st') ->
+    exists fd helpers, py_file_decls uc cfg pd = Ok fd /\
+                       fd_decls fd = map py_helper_decl helpers ++ flat_map py_obs ds.
+Proof. exact Proofs.MultiSameDecls.py_multi_file_decls. Qed.
+Print Assumptions C01_multi_file_decls_python.
+
+Theorem C01_multi_file_decls_kotlin :
+  forall uc cfg c im pd text, kt_generate_multi uc cfg c im pd = Ok text ->
+    exists ds fd, kt_decls uc cfg pd = Ok ds /\ kt_file_decls uc cfg pd = Ok fd /\ fd_decls fd = map kt_obs ds.
+Proof. exact Proofs.MultiSameProps.kt_multi_decls. Qed.
+Print Assumptions C01_multi_file_decls_kotlin.
+
+Theorem C01_multi_file_decls_scala :
+  forall uc cfg pd text, sc_generate uc cfg pd = Ok text ->
+    exists objs pkgs fd, sc_decls uc cfg pd = Ok (objs, pkgs) /\ sc_file_decls uc cfg pd = Ok fd /\
+                         fd_decls fd = flat_map sc_obs (objs ++ pkgs).
+Proof. exact Proofs.MultiSameProps.sc_multi_decls. Qed.
+Print Assumptions C01_multi_file_decls_scala.
+
+(* item by item: every declaration of a folder-mode file is what the item writer returns on the corresponding item
+   of the sorted crate FROM EVERY STATE: the form in which the per-item theorems (C01_back_<l> above, C02_back,
+   C03_item, C04_back_.._alias, C05_site_..), which speak about <l>_decl_of from an arbitrary state, apply *)
+Theorem C01_multi_decls_items_typescript :
+  forall uc cfg st pd ds st', Proofs.C12MultiTS.ts_multi_decls uc cfg st pd = Ok (ds, st') ->
+    exists items, Model.Topsort.topsort (items_of pd) = Ok items /\
+      Forall2 (fun it d => forall s, exists s', ts_decl_of uc cfg it s = Ok (d, s')) items ds.
+Proof. exact Proofs.MultiSameDecls.ts_multi_decls_items. Qed.
+Print Assumptions C01_multi_decls_items_typescript.
+
+Theorem C01_multi_decls_items_swift :
+  forall uc cfg st pd ds st', Proofs.C12MultiSwift.sw_multi_decls uc cfg st pd = Ok (ds, st') ->
+    exists items, Model.Topsort.topsort (items_of pd) = Ok items /\
+      Forall2 (fun it d => forall s, exists s', sw_decl_of uc cfg it s = Ok (d, s')) items ds.
+Proof. exact Proofs.MultiSameDecls.sw_multi_decls_items. Qed.
+Print Assumptions C01_multi_decls_items_swift.
+
+Theorem C01_multi_decls_items_go :
+  forall uc cfg st pd ds st', Proofs.C12MultiGo.go_multi_decls uc cfg st pd = Ok (ds, st') ->
+    exists items dss, Model.Topsort.topsort (items_of pd) = Ok items /\ ds = List.concat dss /\
+      Forall2 (fun it d => forall s, exists s', go_decl_of uc cfg (go_types_mapping_to_struct items) it s = Ok (d, s')) items dss.
+Proof. exact Proofs.MultiSameDecls.go_multi_decls_items. Qed.
+Print Assumptions C01_multi_decls_items_go.
+
+Theorem C01_multi_decls_items_python :
+  forall uc cfg st pd ds st', Proofs.C12Multi.py_multi_decls uc cfg st pd = Ok (ds, st') ->
+    exists items dss, Model.Topsort.topsort (items_of pd) = Ok items /\ ds = List.concat dss /\
+      Forall2 (fun it d => forall s, exists s', py_decl_of uc cfg it s = Ok (d, s')) items dss.
+Proof. exact Proofs.MultiSameDecls.py_multi_decls_items. Qed.
+Print Assumptions C01_multi_decls_items_python.
+
+(* C01 in folder mode: the member lists a crate's folder-mode file declares are, in output order, the member lists of
+   a permutation of the crate's items, every member binding the IR's key - the conclusion of C01_file_<l>, for the
+   file generated from ANY state *)
+Theorem C01_multi_file_typescript :
+  forall uc cfg st pd ds st', Proofs.C12MultiTS.ts_multi_decls uc cfg st pd = Ok (ds, st') ->
+    exists items, Permutation items (items_of pd) /\
+                  Proofs.C01.groups_fit TypeScript (flat_map ir_groups items) (obs_groups (map ts_obs ds)).
+Proof. exact Proofs.MultiSameProps.c01_multi_file_ts. Qed.
+Print Assumptions C01_multi_file_typescript.
+
+Theorem C01_multi_file_kotlin :
+  forall uc cfg c im pd text, kt_generate_multi uc cfg c im pd = Ok text ->
+    exists ds, kt_decls uc cfg pd = Ok ds /\
+      exists items, Permutation items (items_of pd) /\
+                    Proofs.C01.groups_fit Kotlin (flat_map ir_groups items) (obs_groups (map kt_obs ds)).
+Proof. exact Proofs.MultiSameProps.c01_multi_file_kt. Qed.
+Print Assumptions C01_multi_file_kotlin.
+
+Theorem C01_multi_file_swift :
+  forall uc cfg st pd ds st', Proofs.C12MultiSwift.sw_multi_decls uc cfg st pd = Ok (ds, st') ->
+    exists items, Permutation items (items_of pd) /\
+                  Proofs.C01.groups_fit Swift (flat_map ir_groups items) (obs_groups (flat_map sw_obs ds)).
+Proof. exact Proofs.MultiSameProps.c01_multi_file_sw. Qed.
+Print Assumptions C01_multi_file_swift.
+
+Theorem C01_multi_file_scala :
+  forall uc cfg pd text, sc_generate uc cfg pd = Ok text ->
+    exists objs pkgs, sc_decls uc cfg pd = Ok (objs, pkgs) /\
+      Proofs.C01.groups_fit Scala
+        (flat_map ir_groups (map ItAlias (p_aliases pd) ++ map ItStruct (p_structs pd) ++ map ItEnum (p_enums pd)))
+        (obs_groups (flat_map sc_obs (objs ++ pkgs))).
+Proof. exact Proofs.MultiSameProps.c01_multi_file_sc. Qed.
+Print Assumptions C01_multi_file_scala.
+
+Theorem C01_multi_file_go :
+  forall uc cfg st pd ds st', Proofs.C12MultiGo.go_multi_decls uc cfg st pd = Ok (ds, st') ->
+    exists items, Permutation items (items_of pd) /\
+                  Proofs.C01.groups_fit Go (flat_map ir_groups items) (obs_groups (flat_map go_obs ds)).
+Proof. exact Proofs.MultiSameProps.c01_multi_file_go. Qed.
+Print Assumptions C01_multi_file_go.
+
+Theorem C01_multi_file_python :
+  forall uc cfg st pd ds st', Proofs.C12Multi.py_multi_decls uc cfg st pd = Ok (ds, st') ->
+    exists items, Permutation items (items_of pd) /\
+                  Proofs.C01.groups_fit Python (flat_map ir_groups items) (obs_groups (flat_map py_obs ds)).
+Proof. exact Proofs.MultiSameProps.c01_multi_file_py. Qed.
+Print Assumptions C01_multi_file_python.
+
+(* the run: EVERY file a folder-mode TypeScript run generates (from whatever state st_i the earlier crates of the
+   plan left, the run started from ANY st0) is the layout around declarations ds that are the single-file
+   declarations of its crate and bind, member list by member list, the keys of the crate's IR *)
+Theorem C01_multi_run_typescript :
+  forall uc cfg st0 plan files fin,
+    generate_crates (Proofs.C12MultiTS.ts_multi_gen uc cfg) st0 plan = (files, fin) ->
+    forall i fname text,
+      nth_error files i = Some (fname, Writer.Generated text) ->
+      exists p st_i st_i' ds,
+        nth_error plan i = Some p /\ fname = op_file p /\
+        ts_generate_multi uc cfg st_i (op_imports p) (op_data p) = Ok (text, st_i') /\
+        Proofs.C12MultiTS.ts_multi_decls uc cfg st_i (op_data p) = Ok (ds, st_i') /\
+        text = ts_begin_file cfg ++ ts_write_imports (op_imports p) ++ List.concat (map ts_render_decl ds) ++ ts_end_file st_i' /\
+        (exists st1, ts_decls uc cfg (op_data p) = Ok (ds, st1)) /\
+        exists items, Permutation items (items_of (op_data p)) /\
+                      Proofs.C01.groups_fit TypeScript (flat_map ir_groups items) (obs_groups (map ts_obs ds)).
+Proof. exact Proofs.MultiSameProps.c01_multi_run_ts. Qed.
+Print Assumptions C01_multi_run_typescript.
+
+(* the same for Python, whose state is the richest (import table, type variables, translated types): neither the state
+   invariant nor the domain hypotheses of C12_multi_python are needed for the declarations and their keys *)
+Theorem C01_multi_run_python :
+  forall uc cfg st0 plan files fin,
+    generate_crates (Proofs.C12Multi.py_multi_gen uc cfg) st0 plan = (files, fin) ->
+    forall i fname text,
+      nth_error files i = Some (fname, Writer.Generated text) ->
+      exists p st_i st_i' ds,
+        nth_error plan i = Some p /\ fname = op_file p /\
+        py_generate_multi uc cfg st_i (op_data p) = Ok (text, st_i') /\
+        Proofs.C12Multi.py_multi_decls uc cfg st_i (op_data p) = Ok (ds, st_i') /\
+        text = py_begin_file cfg ++ py_write_all_imports st_i' ++ py_write_custom_translations st_i' ++
+               List.concat (map py_render_decl ds) /\
+        (exists st1, py_decls uc cfg (op_data p) = Ok (ds, st1)) /\
+        exists items, Permutation items (items_of (op_data p)) /\
+                      Proofs.C01.groups_fit Python (flat_map ir_groups items) (obs_groups (flat_map py_obs ds)).
+Proof. exact Proofs.MultiSameProps.c01_multi_run_py. Qed.
+Print Assumptions C01_multi_run_python.
+
+(* non-vacuity: the two-crate workspace ws_py_again of Proofs/C12MultiWitness.v; the second crate's file is generated
+   from the non-initial state the first left, with the declarations it has when generated alone *)
+Theorem C01_multi_same_decls_nonvacuous :
+  exists pa pb dsa st_a dsb st_b st_b0 fd,
+    Proofs.C12MultiWitness.y_plan Python Proofs.C12MultiWitness.ws_py_again = Some [pa; pb] /\
+    map op_crate [pa; pb] = [lit "alpha"; lit "beta"] /\
+    Proofs.C12Multi.py_multi_decls uc_exec Proofs.C12MultiWitness.y_py_cfg py_empty_state (op_data pa) = Ok (dsa, st_a) /\
+    py_type_variables st_a = [lit "T"] /\ py_custom_types st_a = [lit "datetime"] /\
+    Proofs.C12Multi.py_multi_decls uc_exec Proofs.C12MultiWitness.y_py_cfg st_a (op_data pb) = Ok (dsb, st_b) /\
+    Proofs.C12Multi.py_multi_decls uc_exec Proofs.C12MultiWitness.y_py_cfg py_empty_state (op_data pb) = Ok (dsb, st_b0) /\
+    py_decls uc_exec Proofs.C12MultiWitness.y_py_cfg (op_data pb) = Ok (dsb, st_b0) /\
+    List.length dsb = 1%nat /\
+    map (fun g => map mb_key g) (obs_groups (flat_map py_obs dsb)) = [[lit "item"; lit "at"]] /\
+    py_type_variables st_b = [lit "T"; lit "U"] /\ py_type_variables st_b0 = [lit "U"] /\
+    py_file_decls uc_exec Proofs.C12MultiWitness.y_py_cfg (op_data pb) = Ok fd /\
+    fd_decls fd = map py_helper_decl [lit "U"; lit "serialize_datetime_data"; lit "parse_rfc3339"] ++ flat_map py_obs dsb.
+Proof. exact Proofs.MultiSameWitness.multi_same_decls_python_nonvacuous. Qed.
+Print Assumptions C01_multi_same_decls_nonvacuous.
+
+(* ... and for TypeScript, Swift and Go: crate beta's declarations from the state crate alpha left (Date registered for the
+   member `at`; the CodableVoid flag set; time imported) are its declarations from the initial state; the states differ *)
+Theorem C01_multi_same_decls_nonvacuous_ts_sw_go :
+  (exists pa pb dsa dsb,
+     Proofs.C12MultiWitness.y_plan TypeScript Proofs.C12MultiWitness.ws_py_plain = Some [pa; pb] /\
+     Proofs.C12MultiTS.ts_multi_decls uc_exec Proofs.C12MultiWitness.y_ts_cfg [] (op_data pa) = Ok (dsa, [(lit "Date", [lit "at"])]) /\
+     Proofs.C12MultiTS.ts_multi_decls uc_exec Proofs.C12MultiWitness.y_ts_cfg [(lit "Date", [lit "at"])] (op_data pb) = Ok (dsb, [(lit "Date", [lit "at"])]) /\
+     Proofs.C12MultiTS.ts_multi_decls uc_exec Proofs.C12MultiWitness.y_ts_cfg [] (op_data pb) = Ok (dsb, []) /\ List.length dsb = 1%nat) /\
+  (exists pa pb dsa dsb,
+     Proofs.C12MultiWitness.y_plan Swift Proofs.C12MultiWitness.ws_sw_unit = Some [pa; pb] /\
+     Proofs.C12MultiSwift.sw_multi_decls uc_exec Proofs.C12MultiWitness.y_sw_cfg false (op_data pa) = Ok (dsa, true) /\
+     Proofs.C12MultiSwift.sw_multi_decls uc_exec Proofs.C12MultiWitness.y_sw_cfg true (op_data pb) = Ok (dsb, true) /\
+     Proofs.C12MultiSwift.sw_multi_decls uc_exec Proofs.C12MultiWitness.y_sw_cfg false (op_data pb) = Ok (dsb, false) /\ List.length dsb = 1%nat) /\
+  (exists pa pb dsa dsb,
+     Proofs.C12MultiWitness.y_plan Go Proofs.C12MultiWitness.ws_py_plain = Some [pa; pb] /\
+     Proofs.C12MultiGo.go_multi_decls uc_exec Proofs.C12MultiWitness.y_go_cfg [] (op_data pa) = Ok (dsa, [lit "encoding/json"; lit "time"]) /\
+     Proofs.C12MultiGo.go_multi_decls uc_exec Proofs.C12MultiWitness.y_go_cfg [lit "encoding/json"; lit "time"] (op_data pb) = Ok (dsb, [lit "encoding/json"; lit "time"]) /\
+     Proofs.C12MultiGo.go_multi_decls uc_exec Proofs.C12MultiWitness.y_go_cfg [] (op_data pb) = Ok (dsb, [lit "encoding/json"]) /\ List.length dsb = 1%nat).
+Proof. exact Proofs.MultiSameWitness.multi_same_decls_ts_sw_go_nonvacuous. Qed.
+Print Assumptions C01_multi_same_decls_nonvacuous_ts_sw_go.
